@@ -32,6 +32,19 @@ func scnGangSameNode(name string) *world.Scenario {
 	return s
 }
 
+// one placeholder, one real ask, three nodes: the swap starts in the prefix, then nodes come and go (a swap that is
+// reversed by a node removal, the real ask bound normally afterwards, its node removed as well)
+func scnGangReversed(name string) *world.Scenario {
+	s := scnGang(name, "Soft")
+	s.Deny = nil
+	s.Nodes = []world.NodeSpec{{ID: "n1", Cap: world.MV(3, 3)}, {ID: "n2", Cap: world.MV(3, 3)}, {ID: "n3", Cap: world.MV(3, 3)}}
+	s.Asks = []world.AskSpec{s.Asks[0], s.Asks[2]} // p1 and r1
+	s.Alphabet = []string{"SCHEDULE", "CONFIRM", "NODE_REMOVE", "NODE_ADD", "RELEASE"}
+	s.Prefix = []world.Op{op("NODE_ADD", "n1"), op("APP_ADD", "gapp"), op("ASK", "p1"), op("SCHEDULE"), op("NODE_ADD", "n2"), op("ASK", "r1"), op("SCHEDULE")}
+	s.MaxConfirmDup = 0
+	return s
+}
+
 const confGangSparse = `partitions:
   - name: default
     queues:
@@ -133,6 +146,7 @@ func scnLifecycleLate(name string) *world.Scenario {
 func init() {
 	mc.Register(&mc.ScenarioDef{Scn: scnGangDrain("gang-cap-drain"), Monitors: []mc.Monitor{monC01()}})
 	mc.Register(&mc.ScenarioDef{Scn: scnGangSameNode("gang-si-same"), Monitors: []mc.Monitor{monC04()}})
+	mc.Register(&mc.ScenarioDef{Scn: scnGangReversed("gang-si-reversed"), Monitors: []mc.Monitor{monC04()}})
 	mc.Register(&mc.ScenarioDef{Scn: scnGangSameNode("gang-acct-same"), Monitors: []mc.Monitor{monC03()}})
 	mc.Register(&mc.ScenarioDef{Scn: scnGangSparse("gang-sparse-qmax"), Monitors: []mc.Monitor{monC02()}})
 	mc.Register(&mc.ScenarioDef{Scn: scnGangSparse("gang-sparse"), Monitors: []mc.Monitor{monC06()}})
